@@ -1,76 +1,114 @@
 import CvDriver.Base
-/-! Module-level driver state: the engine clock, the injected atom data, and the modelled objects. -/
+/-! Module-level driver: engine clock, injected atom data and the modelled objects (`Cv.Sys Float`). -/
 namespace Drv
 open Cv
 
-structure V3 where
-  x : Float := 0
-  y : Float := 0
-  z : Float := 0
-
-/-- a histogram of injected scalar variables (value = z coordinate of `atoms[i]`) -/
-structure HistObj where
-  name : String
-  atoms : List Nat
-  per : List (Float × Float) := []   -- (period, wrapAround) per variable; period 0 = not periodic
-  g : GridDef Float
-  stepZero : Bool
-  data : List Float
-
-inductive Obj where
-  | hist (h : HistObj)
-
 structure ModSt where
-  clock : Clock := {}
-  tfSame : Bool := false
-  clockKnown : Bool := true   -- false after loading a state the model does not interpret
-  pos : List (Nat × V3) := []
-  tf : List (Nat × V3) := []
-  objs : List Obj := []
-
-def ModSt.zOf (m : ModSt) (a : Nat) : Float := ((m.pos.lookup a).getD {}).z
-def ModSt.fzOf (m : ModSt) (a : Nat) : Float := ((m.tf.lookup a).getD {}).z
+  m : Sys Float := {}
+  names : List String := []            -- variable names, same order as `m.cvs`
+  posz : List (Nat × Float) := []
+  tfz : List (Nat × Float) := []
+  natoms : Nat := 0
+  modelled : Bool := false             -- at least one `M.` object: the model speaks for the whole module
+  clockKnown : Bool := true            -- false after loading a state the model does not interpret
 
 def setAssoc {β} (l : List (Nat × β)) (k : Nat) (v : β) : List (Nat × β) :=
   (k, v) :: l.filter (·.1 ≠ k)
 
-def stepObj (m : ModSt) : Obj → Obj
-  | .hist h =>
-    let xs := List.zipWith (fun a (pc : Float × Float) =>
-      if pc.1 == 0.0 then m.zOf a else wrapS pc.1 pc.2 (m.zOf a)) h.atoms h.per
-    .hist { h with data := histStepScalar h.g h.data (canAccumulate m.clock h.stepZero) xs }
+def ModSt.cvIdx (s : ModSt) (names : List String) : List Nat :=
+  names.map fun n => (s.names.idxOf n)
 
-def modOps (m : ModSt) (ln : Nat) (t : List String) : Option (ModSt × List String) :=
+def optF (x : Float) : Option Float := if x == 0.0 then none else some x
+
+def findBias (s : ModSt) (name : String) : Option (Bias Float) :=
+  (s.m.biases.find? (·.1 == name)).map (·.2)
+
+def modOps (s : ModSt) (ln : Nat) (t : List String) : Option (ModSt × List String) :=
   match t with
-  | "m.new" :: _ => some ({}, [])
-  | ["m.opt", "it", n] => some ({ m with clock := { m.clock with it := iOfTok n, itRestart := iOfTok n } }, [])
-  | ["m.opt", "tf_same", b] => some ({ m with tfSame := b != "0" }, [])
-  | "m.opt" :: _ => some (m, [])
-  | "m.loadhex" :: _ => some ({ m with clockKnown := false }, [])
-  | "m.load" :: _ => some ({ m with clockKnown := false }, [])
-  | ["m.pos", a, x, y, z] => some ({ m with pos := setAssoc m.pos (nOfTok a) ⟨fOfTok x, fOfTok y, fOfTok z⟩ }, [])
-  | ["m.tf", a, x, y, z] => some ({ m with tf := setAssoc m.tf (nOfTok a) ⟨fOfTok x, fOfTok y, fOfTok z⟩ }, [])
+  | "m.new" :: n :: _ => some ({ natoms := nOfTok n }, [])
+  | ["m.opt", "it", n] => some ({ s with m := { s.m with clock := { s.m.clock with it := iOfTok n, itRestart := iOfTok n } } }, [])
+  | ["m.opt", "tf_same", b] => some ({ s with m := { s.m with tfSame := b != "0" } }, [])
+  | ["m.opt", "tfloop", b] => some ({ s with m := { s.m with tfLoop := b != "0" } }, [])
+  | "m.opt" :: _ => some (s, [])
+  | "m.loadhex" :: _ => some ({ s with clockKnown := false }, [])
+  | "m.load" :: _ => some ({ s with clockKnown := false }, [])
+  | ["m.pos", a, _x, _y, z] => some ({ s with posz := setAssoc s.posz (nOfTok a) (fOfTok z) }, [])
+  | ["m.tf", a, _x, _y, z] => some ({ s with tfz := setAssoc s.tfz (nOfTok a) (fOfTok z) }, [])
   | "m.step" :: r =>
-    let c := m.clock.tick (r == ["cont"])
-    let m := { m with clock := c }
-    let m := { m with objs := m.objs.map (stepObj m) }
-    some (m, if m.clockKnown then [out ln "it" (iTok c.it)] else [])
+    let inp : StepIn Float := { z := fun a => (s.posz.lookup a).getD 0.0, tfz := fun a => (s.tfz.lookup a).getD 0.0,
+                                cont := r == ["cont"] }
+    let (m', o) := modStep s.m inp
+    let s' := { s with m := m' }
+    let outs := (if s.clockKnown then [out ln "it" (iTok m'.clock.it)] else []) ++
+                (if s.modelled && s.clockKnown then [out ln "energy" (fTok o.energy)] else [])
+    some (s', outs)
+  | "m.forces" :: _ =>
+    if !(s.modelled && s.clockKnown) then some (s, []) else
+    some (s, (List.range s.natoms).map fun a =>
+      out ln ("f" ++ toString a) (fsTok [0.0, 0.0, lookupF s.m.lastApplied a]))
+  | "m.cv" :: name :: r =>
+    if !(s.modelled && s.clockKnown) then some (s, []) else
+    match (s.m.cvs[s.names.idxOf name]? : Option (CvSt Float)) with
+    | none => some (s, [])
+    | some v =>
+      some (s, [out ln "x" (fTok v.x)] ++ r.filterMap fun k =>
+        if k == "ft" then some (out ln "ft" (fTok v.ft)) else if k == "fa" then some (out ln "fa" (fTok v.f)) else none)
+  -- M.cv <name> <atom> <width> <period|0> <wrapAround> <subtractAppliedForce>
+  | ["M.cv", name, atom, w, p, c, sub] =>
+    let v : CvSt Float := { atom := nOfTok atom, per := optF (fOfTok p), wrapC := fOfTok c, width := fOfTok w,
+                            subtract := sub != "0", tfCalc := sub != "0", x := 0.0, ft := 0.0, fOld := 0.0, f := 0.0 }
+    some ({ s with m := { s.m with cvs := s.m.cvs ++ [v] }, names := s.names ++ [name], modelled := true }, [])
+  -- M.hist <name> <stepZeroData> <nd> cvnames.. lo.. hi.. w..
   | "M.hist" :: name :: stepZero :: nd :: r =>
-    -- M.hist <name> <stepZeroData> <nd> atoms.. lo.. hi.. w..
     let nd := nOfTok nd
-    let atoms := (r.take nd).map nOfTok; let r := r.drop nd
-    let (lo, r) := takeF nd r; let (hi, r) := takeF nd r; let (w, r) := takeF nd r
-    let (pp, r) := takeF nd r; let (pc, _) := takeF nd r
+    let idx := s.cvIdx (r.take nd); let r := r.drop nd
+    let (lo, r) := takeF nd r; let (hi, r) := takeF nd r; let (w, _) := takeF nd r
     let nx := List.zipWith (fun (lh : Float × Float) w => nbinsRound lh.1 lh.2 w) (lo.zip hi) w
     let g : GridDef Float := { nx := nx, lo := lo, w := w }
-    let nt := (ntOf 1 nx).toNat
-    let h : HistObj := { name := name, atoms := atoms, g := g, per := pp.zip pc, stepZero := stepZero != "0", data := List.replicate nt 0.0 }
-    some ({ m with objs := m.objs ++ [.hist h] }, [])
+    let b : Bias Float := .hist idx g (stepZero != "0") (List.replicate (ntOf 1 nx).toNat 0.0)
+    some ({ s with m := { s.m with biases := s.m.biases ++ [(name, b)] }, modelled := true }, [])
+  -- M.abf <name> <nd> cvnames.. lo.. hi.. w.. full min applyBias updateBias periodic1D stepZeroData hasMax maxForce..
+  | "M.abf" :: name :: nd :: r =>
+    let nd := nOfTok nd
+    let idx := s.cvIdx (r.take nd); let r := r.drop nd
+    let (lo, r) := takeF nd r; let (hi, r) := takeF nd r; let (w, r) := takeF nd r
+    match r with
+    | full :: mn :: ab :: ub :: p1 :: sz :: hasMax :: r =>
+      let (mf, _) := takeF nd r
+      let nx := List.zipWith (fun (lh : Float × Float) w => nbinsRound lh.1 lh.2 w) (lo.zip hi) w
+      let g : GridDef Float := { nx := nx, lo := lo, w := w }
+      let subs := idx.map fun i => ((s.m.cvs[i]?).map (fun (v : CvSt Float) => v.subtract)).getD false
+      let p : AbfParams Float := { g := g, periodic1D := p1 != "0", fullSamples := iOfTok full, minSamples := iOfTok mn,
+                                   applyBias := ab != "0", updateBias := ub != "0",
+                                   maxForce := if hasMax != "0" then some mf else none,
+                                   subtract := subs, tfCurrent := s.m.tfSame, stepZeroData := sz != "0" }
+      let b : Bias Float := .abf idx p (AbfState.init p)
+      let cvs := (List.range s.m.cvs.length).zip s.m.cvs |>.map fun (iv : Nat × CvSt Float) =>
+        if p.updateBias && idx.contains iv.1 then { iv.2 with tfCalc := true } else iv.2
+      some ({ s with m := { s.m with biases := s.m.biases ++ [(name, b)], cvs := cvs }, modelled := true }, [])
+    | _ => none
+  -- M.harm <name> <nd> cvnames.. k centers..
+  | "M.harm" :: name :: nd :: r =>
+    let nd := nOfTok nd
+    let idx := s.cvIdx (r.take nd); let r := r.drop nd
+    match r with
+    | k :: r =>
+      let (cs, _) := takeF nd r
+      some ({ s with m := { s.m with biases := s.m.biases ++ [(name, .harm idx (fOfTok k) cs)] }, modelled := true }, [])
+    | _ => none
   | ["h.dump", name] =>
-    let o := m.objs.filterMap fun | .hist h => if h.name == name then some h else none
-    match o with
-    | h :: _ => some (m, [out ln "nx" (isTok h.g.nx), out ln "data" (fsTok h.data)])
-    | [] => some (m, [])
+    match findBias s name with
+    | some (.hist _ g _ data) => some (s, [out ln "nx" (isTok g.nx), out ln "data" (fsTok data)])
+    | _ => some (s, [])
+  | ["a.dump", name] =>
+    match findBias s name with
+    | some (.abf _ p st) => some (s, [out ln "nx" (isTok p.g.nx), out ln "samples" (isTok st.samples), out ln "grad" (fsTok st.grad)])
+    | _ => some (s, [])
+  | ["m.bias", name] =>
+    if !(s.modelled && s.clockKnown) then some (s, []) else
+    match findBias s name with
+    | some (.harm idx k cs) => some (s, [out ln "e" (fTok (harmEnergy (getCvs s.m.cvs idx) k cs))])
+    | _ => some (s, [])
   | _ => none
 
 end Drv
